@@ -232,4 +232,107 @@ Section SpreadFree.
     destruct (collect_into_spread_free _ _ _ _ _ Hsf Hr) as [fs [Hfl [Hg _]]].
     exists fs, []. split; [apply Hfl|]. rewrite Hg. apply group_into_spec.
   Qed.
+
+  (* ---- spreads at the top level only *)
+  Definition nonapp (n : str) : Prop :=
+    alookup n frags = None \/
+    exists tc fsels, alookup n frags = Some (tc, fsels) /\ applies (Some tc) = false.
+
+  (* the code's seen set against the specification's visited set *)
+  Definition seen_rel (local V : list str) : Prop :=
+    (forall n, In n local -> In n V) /\ (forall n, In n V -> In n local \/ nonapp n).
+
+  Lemma collect_into_top_spreads : forall fuel ss g local V r,
+    top_spreads frags ss = true -> seen_rel local V ->
+    collect_into applies frags vs mc fuel ss g local = Ok r ->
+    exists fs V', SFlat applies frags vs ss V fs V' /\
+                  fst r = group_into g fs /\ seen_rel (snd r) V'.
+  Proof.
+    induction fuel as [|fuel IH]; intros ss g local V r Hts Hrel H; simpl in H; [discriminate|].
+    destruct ss as [|x ss].
+    { inversion H; subst. exists [], V. split; [apply SF_nil|]. split; [reflexivity|exact Hrel]. }
+    simpl in Hts. apply andb_true_iff in Hts as [Hx Hss].
+    destruct x as [alias n args dirs sl sub l|n dirs l|tc dirs ssl sub l].
+    - apply obind_ok in H as [sk [Hsk H]]. pose proof (passes_of_skip _ _ Hsk) as Hp.
+      destruct sk; simpl in Hp.
+      + destruct (IH _ _ _ _ _ Hss Hrel H) as [fs [V' [Hfl [Hg Hl]]]]. exists fs, V'. (split; [|split; [exact Hg|exact Hl]]).
+        apply SF_field_skip; assumption.
+      + destruct (IH _ _ _ _ _ Hss Hrel H) as [fs [V' [Hfl [Hg Hl]]]].
+        exists (SField alias n args dirs sl sub l :: fs), V'. (split; [|split; [exact Hg|exact Hl]]).
+        apply SF_field; assumption.
+    - destruct (alookup (n_val n) frags) as [[tc fsels]|] eqn:Ef.
+      + apply obind_ok in H as [sk [Hsk H]]. pose proof (passes_of_skip _ _ Hsk) as Hp.
+        destruct (sk || mem_str (n_val n) local || negb (applies (Some tc))) eqn:Ecase.
+        * (* the code skips the spread *)
+          destruct sk; simpl in Hp.
+          { destruct (IH _ _ _ _ _ Hss Hrel H) as [fs [V' [Hfl [Hg Hl]]]]. exists fs, V'. (split; [|split; [exact Hg|exact Hl]]).
+            apply SF_spread_skip; [left; exact Hp|exact Hfl]. }
+          destruct (in_dec str_eq_dec (n_val n) V) as [Hin|Hnin].
+          { destruct (IH _ _ _ _ _ Hss Hrel H) as [fs [V' [Hfl [Hg Hl]]]]. exists fs, V'. (split; [|split; [exact Hg|exact Hl]]).
+            apply SF_spread_skip; [right; exact Hin|exact Hfl]. }
+          simpl in Ecase. apply orb_true_iff in Ecase as [Em|Ea].
+          { exfalso. apply Hnin. apply Hrel. apply mem_str_In. exact Em. }
+          apply negb_true_iff in Ea.
+          assert (Hrel' : seen_rel local (n_val n :: V)).
+          { split; [intros m Hm; right; apply Hrel; exact Hm|].
+            intros m [<-|Hm]; [right; right; eauto|apply Hrel; exact Hm]. }
+          destruct (IH _ _ _ _ _ Hss Hrel' H) as [fs [V' [Hfl [Hg Hl]]]]. exists fs, V'. (split; [|split; [exact Hg|exact Hl]]).
+          apply SF_spread_other; [exact Hp|exact Hnin|right; eauto|exact Hfl].
+        * (* the code expands the fragment *)
+          apply orb_false_iff in Ecase as [Ecase Ea]. apply orb_false_iff in Ecase as [-> Em].
+          apply negb_false_iff in Ea. simpl in Hp.
+          assert (Hnl : ~ In (n_val n) local).
+          { intros Hi. apply mem_str_In in Hi. congruence. }
+          assert (Hnin : ~ In (n_val n) V).
+          { intros Hi. destruct (proj2 Hrel _ Hi) as [Hl|[Hna|[tc' [fs' [Hl' Hna]]]]]; [tauto|congruence|].
+            rewrite Ef in Hl'. inversion Hl'; subst. congruence. }
+          apply obind_ok in H as [r1 [H1 H]].
+          destruct (collect_into_spread_free _ _ _ _ _ Hx H1) as [fs1 [Hfl1 [Hg1 Hl1]]].
+          rewrite Hl1, caller_view_same, Hg1, merge_group_into in H.
+          assert (Hrel' : seen_rel (n_val n :: local) (n_val n :: V)).
+          { split; [intros m [<-|Hm]; [left; reflexivity|right; apply Hrel; exact Hm]|].
+            intros m [<-|Hm]; [left; left; reflexivity|].
+            destruct (proj2 Hrel _ Hm) as [Hl|Hna]; [left; right; exact Hl|right; exact Hna]. }
+          destruct (IH _ _ _ _ _ Hss Hrel' H) as [fs2 [V' [Hfl2 [Hg2 Hl2]]]].
+          exists (fs1 ++ fs2), V'. split; [|split; [|exact Hl2]].
+          -- eapply SF_spread; [exact Hp|exact Hnin|exact Ef|exact Ea|apply Hfl1|exact Hfl2].
+          -- rewrite Hg2, group_into_app. reflexivity.
+      + destruct mc; [discriminate|]. apply obind_ok in H as [sk [Hsk H]].
+        pose proof (passes_of_skip _ _ Hsk) as Hp.
+        destruct sk; simpl in Hp.
+        { destruct (IH _ _ _ _ _ Hss Hrel H) as [fs [V' [Hfl [Hg Hl]]]]. exists fs, V'. (split; [|split; [exact Hg|exact Hl]]).
+          apply SF_spread_skip; [left; exact Hp|exact Hfl]. }
+        destruct (in_dec str_eq_dec (n_val n) V) as [Hin|Hnin].
+        { destruct (IH _ _ _ _ _ Hss Hrel H) as [fs [V' [Hfl [Hg Hl]]]]. exists fs, V'. (split; [|split; [exact Hg|exact Hl]]).
+          apply SF_spread_skip; [right; exact Hin|exact Hfl]. }
+        assert (Hrel' : seen_rel local (n_val n :: V)).
+        { split; [intros m Hm; right; apply Hrel; exact Hm|].
+          intros m [<-|Hm]; [right; left; exact Ef|apply Hrel; exact Hm]. }
+        destruct (IH _ _ _ _ _ Hss Hrel' H) as [fs [V' [Hfl [Hg Hl]]]]. exists fs, V'. (split; [|split; [exact Hg|exact Hl]]).
+        apply SF_spread_other; [exact Hp|exact Hnin|left; exact Ef|exact Hfl].
+    - apply obind_ok in H as [sk [Hsk H]]. pose proof (passes_of_skip _ _ Hsk) as Hp.
+      destruct (sk || negb (applies tc)) eqn:Ecase.
+      + destruct (IH _ _ _ _ _ Hss Hrel H) as [fs [V' [Hfl [Hg Hl]]]]. exists fs, V'. (split; [|split; [exact Hg|exact Hl]]).
+        apply SF_inline_skip; [|exact Hfl].
+        destruct sk; simpl in *; [left; exact Hp|right]. destruct (applies tc); [discriminate|reflexivity].
+      + apply orb_false_iff in Ecase as [-> Eap]. apply negb_false_iff in Eap. simpl in Hp.
+        apply obind_ok in H as [r1 [H1 H]].
+        destruct (collect_into_spread_free _ _ _ _ _ Hx H1) as [fs1 [Hfl1 [Hg1 Hl1]]].
+        rewrite Hl1, caller_view_same, Hg1, merge_group_into in H.
+        destruct (IH _ _ _ _ _ Hss Hrel H) as [fs2 [V' [Hfl2 [Hg2 Hl2]]]].
+        exists (fs1 ++ fs2), V'. split; [|split; [|exact Hl2]].
+        * eapply SF_inline; [exact Hp|exact Eap|apply Hfl1|exact Hfl2].
+        * rewrite Hg2, group_into_app. reflexivity.
+  Qed.
+
+  Theorem collect_is_spec_collect_top fuel ss g :
+    top_spreads frags ss = true ->
+    collect applies frags vs mc fuel ss = Ok g ->
+    SCollect applies frags vs ss g.
+  Proof.
+    intros Hts H. unfold collect in H. apply obind_ok in H as [r [Hr H]]. inversion H; subst.
+    assert (Hrel : seen_rel [] []) by (split; intros n []).
+    destruct (collect_into_top_spreads _ _ _ _ _ _ Hts Hrel Hr) as [fs [V' [Hfl [Hg _]]]].
+    exists fs, V'. split; [exact Hfl|]. rewrite Hg. apply group_into_spec.
+  Qed.
 End SpreadFree.
